@@ -42,6 +42,25 @@ for _pid, _what in (("C10", "enum detection (members, values, comments, Kind, Is
         "DESIGN.md section 5 / " + _pid,
     )
 
+CLAIMED["C01"] = (
+    "type-checker + compiler as oracle on generated Go placed in the synthesised source package (executions of the three Go generators + import fixing)",
+    "Synthesised typeprogs and sqlprogs are analysed by the real gomacro; each accepted gounions / randdata / sqlcrud (sets on and off) output goes through x/tools/imports.Process and is type-checked inside its package (go/types overlay), alone and all together, then the real gc compiler builds all packages with the generated files. Held on the programs produced; known findings pinned.",
+    "Trusted: imports.Process v0.31.0 = goimports -w; lib/pq replaced by a stand-in with the same API; refusals are not accepted inputs.",
+    "DESIGN.md section 5 / C01",
+)
+CLAIMED["C02"] = (
+    "runtime monitor in the compiled package: JSON round trip + wire format compared with a reference encoder (encoding/json on a twin value with hand-written Kind/Data)",
+    "The generated union wrappers are compiled into each synthesised package; for every type reaching a union, seeded values are marshalled by the real encoding/json, the document is compared as a JSON tree with the output of a reference encoder that does not use generated code, then unmarshalled and deep-compared with the original (nil == empty). Held on the values produced.",
+    "Trusted: the twin construction (reflect.StructOf with the original names and tags, `any` at union-reaching positions) + real encoding/json for every non-union component; union tables from go/types.",
+    "DESIGN.md section 5 / C02",
+)
+CLAIMED["C15"] = (
+    "runtime monitor in the compiled package: generated rand functions called repeatedly, values inspected by reflection, stack exhaustion attributed per function",
+    "Every generated rand<ID>() is called repeatedly under a seeded source; values are checked by reflection against enum/union tables computed from go/types (exported constants, non-nil members, populated containers, skipped fields zero), must vary, and go through the C02 JSON round trip; functions of recursive programs run one per process so that non-termination (deterministic stack limit) is attributed. Held on the calls made; the recursion defect is a pinned known finding.",
+    "Trusted: registry written by the driver from go/types; 'populated' = at least one element.",
+    "DESIGN.md section 5 / C15",
+)
+
 NOT_YET = "check not built yet (work in progress, see DESIGN.md section 5 for the planned monitor)"
 NOT_APPLICABLE = {}
 
